@@ -996,4 +996,179 @@ theorem good_compound (F : FloatOps) (B : List String) (pos p : Pos) (x : String
             hlv hrv hsl hsr hs'
           exact ⟨rfl, OutS.of_thr (combine2 hvm.size (by omega) hr1 hs1 hh1 hsp1 hag1 hr2 hs2 hh2 hsp2 hag2 o2) hdy.rel⟩
 
+/-! ### `var x` (no value): the code of `var x = undefined` -/
+
+theorem compileExpr_undef (pos : Pos) : compileExpr (.undef pos) = Compile.emit_ pos Compile.OpNull := by
+  unfold Compile.compileExpr; rfl
+
+theorem compileStmt_var0 (pos ipos : Pos) (iota : Option Nat) (x : String) :
+    compileStmt (.declValue pos tVar [(iota, [(ipos, x)], [])]) =
+      (do compileExpr (.undef ipos); Compile.compileDefine pos x false tVar) := by
+  rw [compileExpr_undef, Compile.compileStmt_eq]
+  simp only
+  unfold Compile.compileValueSpecs
+  unfold Compile.compileValueIdents
+  unfold Compile.compileIdentsNoValue
+  unfold Compile.compileIdentsNoValue
+  unfold Compile.compileValueSpecs
+  simp [Compile.compileValueIdent, tVar, tConst, Gen.tok_Var, Gen.tok_Const]
+
+theorem execIdents_var0 (F : FloatOps) (f : Nat) (env : Sem.Env) (iota : Option Nat) (ipos : Pos) (x : String)
+    (last : Option Expr) :
+    Sem.execIdents F (f + 1) env tVar iota [(ipos, x)] [] last = (do
+      let envI ← (pure ([] :: env) : Sem.SM Sem.Env)
+      match (← Sem.evalExpr F f envI (.undef ipos)) with
+      | .thr a => pure (.thr a, env, last)
+      | .val v => do
+        let env' ← Sem.declare env x v
+        Sem.execIdents F f env' tVar iota [] [] last) := by
+  cases last <;> rfl
+
+theorem good_varDecl0 (F : FloatOps) (B : List String) (pos ipos : Pos) (iota : Option Nat) (x : String)
+    (hx : x ≠ "_") :
+    GoodC F B (x :: B) 2 (compileStmt (.declValue pos tVar [(iota, [(ipos, x)], [])]))
+      (fun fuel env => Sem.execStmt F fuel env (.declValue pos tVar [(iota, [(ipos, x)], [])])) := by
+  rw [compileStmt_var0]
+  refine good_defineCore F B pos x (.undef ipos) rfl hx _ ?_
+  intro fuel env ss t c env' ss' t' hsem
+  try dsimp only at hsem
+  cases fuel with
+  | zero => exact (execStmt_zero' hsem).elim
+  | succ fuel =>
+    rw [execStmt_var] at hsem
+    cases fuel with
+    | zero => rw [execValueSpecs_zero] at hsem; exact (sm_unsupported_ne hsem).elim
+    | succ fuel =>
+      rw [execValueSpecs_cons] at hsem
+      obtain ⟨⟨c1, env1, last1⟩, ss1, t1, hid, hsem⟩ := sm_bind_inv hsem
+      cases fuel with
+      | zero => rw [execIdents_zero] at hid; exact (sm_unsupported_ne hid).elim
+      | succ fuel =>
+        rw [execIdents_var0] at hid
+        obtain ⟨envI, ss0, t0, hpure, hid⟩ := sm_bind_inv hid
+        obtain ⟨rfl, rfl, rfl⟩ := sm_pure_inv hpure
+        obtain ⟨rr, ss2, t2, hev, hid⟩ := sm_bind_inv hid
+        refine ⟨fuel, [] :: env, rr, ss2, t2, fun n => lookupEnv_nil_cons n env, hev, ?_⟩
+        cases rr with
+        | thr a =>
+          obtain ⟨hce, rfl, rfl⟩ := sm_pure_inv hid
+          simp only [Prod.mk.injEq] at hce
+          obtain ⟨rfl, rfl, rfl⟩ := hce
+          simp only at hsem
+          obtain ⟨hce, rfl, rfl⟩ := sm_pure_inv hsem
+          simp only [Prod.mk.injEq] at hce
+          exact ⟨hce.1.symm, hce.2.symm, rfl, rfl⟩
+        | val v =>
+          simp only at hid
+          obtain ⟨envd, ss3, t3, hdec, hid⟩ := sm_bind_inv hid
+          cases fuel with
+          | zero => rw [execIdents_zero] at hid; exact (sm_unsupported_ne hid).elim
+          | succ fuel =>
+            rw [execIdents_nil] at hid
+            obtain ⟨hce, rfl, rfl⟩ := sm_pure_inv hid
+            simp only [Prod.mk.injEq] at hce
+            obtain ⟨rfl, rfl, rfl⟩ := hce
+            simp only at hsem
+            rw [execValueSpecs_nil] at hsem
+            obtain ⟨hce, rfl, rfl⟩ := sm_pure_inv hsem
+            simp only [Prod.mk.injEq] at hce
+            obtain ⟨rfl, rfl⟩ := hce
+            exact ⟨rfl, hdec⟩
+
+/-! ### `x++` / `x--`: the code and the meaning of `x += 1` / `x -= 1` -/
+
+/-- the same code against another presentation of the same reference computation -/
+theorem GoodC.resem {F : FloatOps} {B B' : List String} {nd : Nat} {act : Compile.CM Unit}
+    {sem sem' : Nat → Sem.Env → Sem.SM (Sem.Comp × Sem.Env)} (h : GoodC F B B' nd act sem)
+    (hrun : ∀ fuel env ss t r ss' t', exec ((sem' fuel env).run ss) t = (.ok (r, ss'), t') →
+      ∃ fuel', exec ((sem fuel' env).run ss) t = (.ok (r, ss'), t')) : GoodC F B B' nd act sem' := by
+  intro cs cs' hc hcov hok
+  obtain ⟨h1, h2, h3, h4⟩ := h cs cs' hc hcov hok
+  refine ⟨h1, h2, h3, ?_⟩
+  intro fuel K code bp L env binds s t ss ss' c env' t' hK hcode hvm hip hsp hL hst hdy hsem
+  obtain ⟨fuel', hsem'⟩ := hrun fuel env ss t (c, env') ss' t' hsem
+  exact h4 fuel' K code bp L env binds s t ss ss' c env' t' hK hcode hvm hip hsp hL hst hdy hsem'
+
+theorem compileStmt_incdec (pos : Pos) (tok : Nat) (tp p : Pos) (x : String) :
+    compileStmt (.incdec pos tok tp (.ident p x)) =
+      compileStmt (.assign pos (if tok == tDec then tSubAssign else tAddAssign) [.ident p x] [.int tp 1#64]) := by
+  have h1 : (if tok == tDec then tSubAssign else tAddAssign) ≠ tDefine := by split <;> decide
+  have h2 : (if tok == tDec then tSubAssign else tAddAssign) ≠ tAssign := by split <;> decide
+  have h3 : compileExpr (.int tp 1#64) = Compile.emitConstant tp (.int 1#64) := by
+    unfold Compile.compileExpr; rfl
+  rw [compileStmt_compound _ _ _ _ _ h1 h2, h3, Compile.compileStmt_eq]
+  first | rfl | (simp only; done) | (simp only; rfl)
+
+theorem execStmt_incdec (F : FloatOps) (fuel : Nat) (env : Sem.Env) (pos : Pos) (tok : Nat) (tp : Pos) (e : Expr) :
+    Sem.execStmt F (fuel + 1) env (.incdec pos tok tp e) = (do
+      match (← Sem.evalExpr F fuel env e) with
+      | .thr a => pure (.thr a, env)
+      | .val cur =>
+        match (← Sem.liftM (vBinaryOp F (if tok == tDec then .Sub else .Add) cur (.int 1#64))) with
+        | .error er => do match (← Sem.raise er) with | .thr a => pure (.thr a, env) | _ => pure (.normal, env)
+        | .ok nv => Sem.assignTo F fuel env e nv false tVar) := rfl
+
+theorem sm_bind_run' {α β} {x : Sem.SM α} {f : α → Sem.SM β} {ss ss1 : Sem.SemSt} {t t1 : State} {a : α}
+    (h : exec (x.run ss) t = (.ok (a, ss1), t1)) : exec ((x >>= f).run ss) t = exec ((f a).run ss1) t1 := by
+  rw [StateT.run_bind, exec_bind, h]
+
+theorem sm_pure_run' {α} (a : α) (ss : Sem.SemSt) (t : State) :
+    exec ((pure a : Sem.SM α).run ss) t = (.ok (a, ss), t) := by
+  rw [run_pure]; rfl
+
+/-- a run of `x++` / `x--` is a run of `x += 1` / `x -= 1` -/
+theorem incdec_as_compound (F : FloatOps) (fuel : Nat) (env : Sem.Env) (pos : Pos) (tok : Nat) (tp : Pos) (e : Expr)
+    (ss : Sem.SemSt) (t : State) (r : Sem.Comp × Sem.Env) (ss' : Sem.SemSt) (t' : State)
+    (h : exec ((Sem.execStmt F fuel env (.incdec pos tok tp e)).run ss) t = (.ok (r, ss'), t')) :
+    ∃ fuel', exec ((Sem.execStmt F fuel' env
+      (.assign pos (if tok == tDec then tSubAssign else tAddAssign) [e] [.int tp 1#64])).run ss) t = (.ok (r, ss'), t') := by
+  cases fuel with
+  | zero => exact (execStmt_zero' h).elim
+  | succ fuel =>
+    rw [execStmt_incdec] at h
+    obtain ⟨rc, ss1, t1, hev, h⟩ := sm_bind_inv h
+    cases fuel with
+    | zero =>
+      have h0 : Sem.evalExpr F 0 env e = Sem.liftM (unsupported "sem: fuel") := by cases e <;> rfl
+      rw [h0] at hev; exact (sm_unsupported_ne hev).elim
+    | succ f =>
+      refine ⟨f + 2, ?_⟩
+      rw [execStmt_assign1]
+      have hint : exec ((Sem.evalExpr F (f + 1) env (.int tp 1#64)).run ss1) t1 = (.ok (.val (.int 1#64), ss1), t1) := by
+        have : Sem.evalExpr F (f + 1) env (.int tp 1#64) = pure (.val (.int 1#64)) := rfl
+        rw [this]; exact sm_pure_run' _ _ _
+      by_cases hd : (tok == tDec) = true
+      · simp only [hd, if_true] at h ⊢
+        have htk : (tSubAssign == tAssign || tSubAssign == tDefine) = false := by decide
+        simp only [htk, Bool.false_eq_true, if_false]
+        rw [sm_bind_run' hev]
+        cases rc with
+        | thr a => exact h
+        | val cur =>
+          simp only at h ⊢
+          rw [sm_bind_run' hint]
+          exact h
+      · simp only [hd, Bool.false_eq_true, if_false] at h ⊢
+        have htk : (tAddAssign == tAssign || tAddAssign == tDefine) = false := by decide
+        simp only [htk, Bool.false_eq_true, if_false]
+        rw [sm_bind_run' hev]
+        cases rc with
+        | thr a => exact h
+        | val cur =>
+          simp only at h ⊢
+          rw [sm_bind_run' hint]
+          exact h
+
+theorem good_incdec (F : FloatOps) (B : List String) (pos : Pos) (tok : Nat) (tp p : Pos) (x : String) (hx : x ∈ B) :
+    GoodC F B B 2 (compileStmt (.incdec pos tok tp (.ident p x)))
+      (fun fuel env => Sem.execStmt F fuel env (.incdec pos tok tp (.ident p x))) := by
+  rw [compileStmt_incdec]
+  have hop : ∃ op, Compile.compoundOp (if tok == tDec then tSubAssign else tAddAssign) = some op := by
+    split
+    · exact ⟨_, rfl⟩
+    · exact ⟨_, rfl⟩
+  obtain ⟨op, hop⟩ := hop
+  have hg := good_compound F B pos p x (.int tp 1#64) _ op rfl hx hop
+  exact hg.resem (fun fuel env ss t r ss' t' h => incdec_as_compound F fuel env pos tok tp _ ss t r ss' t' h)
+
 end UgoVerif.CompSim
